@@ -53,6 +53,9 @@ pub struct CallSiteCacheEntry {
     pub arity: u8,
     pub num_registers: u8,
     pub callee_gmap: usize,
+    // heap index of the callee this entry was built from; the fast path only uses an
+    // entry that belongs to the callee cached at the call site (slots can be shared)
+    pub owner: usize,
     pub is_closure: bool,
 }
 
@@ -66,6 +69,7 @@ impl Default for CallSiteCacheEntry {
             arity: 0,
             num_registers: 0,
             callee_gmap: 0,
+            owner: 0,
             is_closure: false,
         }
     }
